@@ -837,7 +837,8 @@ EXTRA_COLS = ["parameters", "appearance", "choice_filter", "default", "repeat_co
 INTERNAL_COLS = ["bind", "control", "choices", "children", "itemset", "list_name", "columns", "query", "value", "intent",
                  "instance", "media", "parameters::x", "type::x", "name::x", "itemset::x", "action", "actions", "tags", "bind:", "body"]
 EXTRA_VALS = ["", " ", "${q}", "${t0}", "x=1", "rows=a", "randomize=true", "search('f')", "now()", "1", "yes", "seed=${t0}",
-              "${zz}", "a b", "<", "table-list", "field-list", "value=a label=b", "${", "-", "true()", "label", "0", "no", "${data}", "${meta}", "${instanceID}"]
+              "${zz}", "a b", "<", "table-list", "field-list", "value=a label=b", "${", "-", "true()", "label", "0", "no", "${data}", "${meta}", "${instanceID}",
+              "100% sure", "%(foo)s", "%"]
 CHOICE_SHEETS = {
     "normal": [{"list_name": "c", "name": "x", "label": "X"}, {"list_name": "c", "name": "y", "label": "Y"}],
     "absent": None,
